@@ -1465,7 +1465,12 @@ def _install(M):
                 ex__.assume(res.get([0]) == 0)
                 return res
             return Builtin("spline.antiderivative()", evaluate)
-        return Obj("UnivariateSpline(model)", {"antiderivative": Builtin("spline.antiderivative", antiderivative)})
+        def integral(ex_, a_, k_, l_):
+            """assumed contract: spline.integral(a, b) is a deterministic function of the two arrays and the two limits"""
+            f = z3.Function("u_splint", tre.sort(), yre.sort(), z3.RealSort(), z3.RealSort(), z3.RealSort())
+            return f(tre, yre, V.z3real(a_[0]), V.z3real(a_[1]))
+        return Obj("UnivariateSpline(model)", {"antiderivative": Builtin("spline.antiderivative", antiderivative),
+                                                "integral": Builtin("spline.integral", integral)})
     M.table["scipy.interpolate.interpolate.UnivariateSpline"] = M.table["scipy.interpolate.UnivariateSpline"]
 
     def _spec_prim(ex, a, k, l):
